@@ -154,18 +154,25 @@ Definition recv_possible (l : h11lib) (e : h11ev) : bool :=
 Definition with_cs (l : h11lib) (c : cstate) : h11lib :=
   {| l_cs := c; l_waiting_100 := l_waiting_100 l; l_method := l_method l; l_their_version := l_their_version l |}.
 
+(* the state-machine part of processing a received Request: switch proposals (Upgrade header,
+   CONNECT method), the event itself, then keep-alive; None = LocalProtocolError *)
+Definition request_cs (c : cstate) (up conn keep_alive : bool) : option cstate :=
+  let c1 := if up || conn then propose c up conn else c in
+  match process_event c1 true KRequest SwNone with
+  | None => None
+  | Some c2 => Some (if keep_alive then c2 else keep_alive_disabled c2)
+  end.
+
 (* Connection.next_event, given what the parser produced *)
 Definition recv (l : h11lib) (e : h11ev) : h11lib :=
   match e with
   | HNeedData | HPaused => l
   | HRemoteError _ => with_cs l (process_error (l_cs l) true)
   | HRequest method target hs version =>
-      let c := propose (l_cs l) (negb (match comma_header hs (B "upgrade") with [] => true | _ => false end)) (beqb method (B "CONNECT")) in
-      let c := if negb (cs_sw_upgrade c || cs_sw_connect c) then l_cs l else c in
-      match process_event c true KRequest SwNone with
+      let up := negb (match comma_header hs (B "upgrade") with [] => true | _ => false end) in
+      match request_cs (l_cs l) up (beqb method (B "CONNECT")) (msg_keep_alive hs version) with
       | None => with_cs l (process_error (l_cs l) true)
       | Some c =>
-          let c := if msg_keep_alive hs version then c else keep_alive_disabled c in
           {| l_cs := c;
              l_waiting_100 := negb (bytes_ltb version (B "1.1")) && has_token hs (B "expect") (B "100-continue");
              l_method := method; l_their_version := version |}
